@@ -16,6 +16,39 @@ from ..program import AnalysisIncomplete, Func, Partial, norm
 from ..sym import App, Rat
 
 
+def distance_param_roles(prog, dist):
+    """{'x1'|'x2'|'y1'|'y2'|'metric': parameter of the metric dispatcher}, read off the public great_circle_distance(x1, x2,
+    y1, y2) call it reaches; None when that cannot be read"""
+    from ..kai import interpret
+    from ..sym import Rat, Sym
+    try:
+        k = interpret(prog, dist, strict=False)
+    except AnalysisIncomplete:
+        return None
+    for r in getattr(k, 'inlined', []):
+        if r[0].name == 'great_circle_distance':
+            bound = dict(zip(r[0].params, r[1]))
+            bound.update(r[2] or {})
+            out = {}
+            for role in ('x1', 'x2', 'y1', 'y2'):
+                v = bound.get(role)
+                nm = None
+                if isinstance(v, tuple) and len(v) == 2 and v[0] == 'param':
+                    nm = v[1]
+                elif isinstance(v, Rat):
+                    ats = list(v.atoms())
+                    if len(ats) == 1 and isinstance(ats[0], Sym) and v == Rat.atom(ats[0]):
+                        nm = ats[0].name
+                if nm not in dist.params:
+                    return None
+                out[role] = nm
+            rest = [p_ for p_ in dist.params if p_ not in out.values()]
+            if len(set(out.values())) == 4 and len(rest) == 1:
+                out['metric'] = rest[0]
+                return out
+    return None
+
+
 def find_impl(prog):
     m = prog.module('proximity')
     impls = set()
@@ -130,11 +163,18 @@ def check(prog, rep):
     mptxt = None
     if len(mp) == 1 and isinstance(mp[0], ast.Call):
         mptxt = norm(mp[0])
-        args = [norm(a).replace(' ', '') for a in mp[0].args]
         tt = prog.resolve_callable(impl, impl.module, mp[0].func)
-        okmp = isinstance(tt, Func) and tt.name == '_distance' and len(args) == 5 and \
-            args[0] in ('xs[0][0]', 'xs[0,0]') and args[1] in ('xs[-1][-1]', 'xs[-1,-1]') and \
-            args[2] in ('ys[0][0]', 'ys[0,0]') and args[3] in ('ys[-1][-1]', 'ys[-1,-1]') and args[4] == 'distance_metric'
+        if isinstance(tt, Func):
+            # the dispatcher's parameters by what they reach (great_circle_distance(x1, x2, y1, y2): public names), not by position
+            dr = distance_param_roles(prog, tt)
+            b_ = dict(zip(tt.params, [norm(a).replace(' ', '') for a in mp[0].args]))
+            b_.update({k_.arg: norm(k_.value).replace(' ', '') for k_ in mp[0].keywords if k_.arg})
+            if dr is not None and set(b_) == set(tt.params):
+                corner = {'xs[0][0]': ('x', 0), 'xs[0,0]': ('x', 0), 'xs[-1][-1]': ('x', 1), 'xs[-1,-1]': ('x', 1),
+                          'ys[0][0]': ('y', 0), 'ys[0,0]': ('y', 0), 'ys[-1][-1]': ('y', 1), 'ys[-1,-1]': ('y', 1)}
+                c_ = {r_: corner.get(b_[dr[r_]]) for r_ in ('x1', 'x2', 'y1', 'y2')}
+                okmp = all(v_ is not None for v_ in c_.values()) and c_['x1'][0] == c_['x2'][0] == 'x' and c_['y1'][0] == c_['y2'][0] == 'y' and \
+                    c_['x1'][1] == c_['y1'][1] and c_['x2'][1] == c_['y2'][1] and c_['x1'][1] != c_['x2'][1] and b_[dr['metric']] == 'distance_metric'
     rep.add('P7b', impl, entry, '%s = %s' % (other, mptxt), impl.node.lineno, okmp,
             'the fallback threshold must be the corner-to-corner distance of the raster under the chosen metric')
     rep.add('P7b', dfun, entry, 'if %s' % norm(t), fb.lineno,
